@@ -73,14 +73,15 @@ class BuckGophermapHandler(BaseHandler):
                 line = rfile.readline().decode(errors="surrogateescape")
                 if not line:
                     break
-                if re.search("\t", line):  # gophermap link
-                    args = [arg.strip() for arg in line.split("\t")]
+                args = [arg.strip() for arg in line.split("\t")]
+                # A gophermap link has a tab and starts with a type character.
+                if len(args) > 1 and args[0]:
 
                     if len(args) < 2 or not len(args[1]):
                         args[1] = args[0][1:]  # Copy display string to selector
 
                     selector = args[1]
-                    if selector[0] != "/" and selector[0:4] != "URL:":  # Relative link
+                    if selector[0:1] != "/" and selector[0:4] != "URL:":  # Relative link
                         selector = selectorbase + "/" + selector
 
                     entry = gopherentry.GopherEntry(selector, self.config)
